@@ -155,6 +155,19 @@ def run(ctx, prog):
         for c in u.calls_to('TokenBucket::refund_one'):
             recv = flow.render(of.of_operand(c.args[0]))
             ctx.inst('C19.R2', u.short, 'refund targets the tenant bucket #%d' % sorted(refund).index(c.bb), 'global_bucket' not in recv, 'refund_one on %s' % recv[:100])
+        # the tenant bucket that is charged is the one REGISTERED in the shared map (looked up, or the entry returned by or_insert_with): a bucket built
+        # locally and charged instead of the registered one gives every racing first request its own full bucket
+        k2 = 0
+        for c in tcs + u.calls_to('TokenBucket::refund_one'):
+            recv = flow.render(of.of_operand(c.args[0]))
+            if 'RateLimiter.global_bucket' in recv:
+                continue
+            if u is not cl and re.match(r'^Mutex::lock\(arg:\w+\)$', recv):
+                # helper: the bucket is a parameter — checked at the call sites in check_limit below
+                continue
+            reg = bool(re.match(r'^Mutex::lock\((HashMap::get\(RwLock::(read|write)\(arg:self→RateLimiter\.buckets\), arg:tenant_id\)@Some→Some\.0|Entry::or_insert_with\(HashMap::entry\(RwLock::write\(arg:self→RateLimiter\.buckets\), .*\))\)$', recv))
+            ctx.inst('C19.R2', u.short, 'charged tenant bucket #%d is the one registered in the shared map' % k2, reg, '%s on %s' % (flow.short(c.callee), recv[:150]))
+            k2 += 1
         k_ = 0
         for c in u.calls_to('TokenBucket::try_consume', 'TokenBucket::refund_one'):
             h = lm.held_at(u, c.bb, must=False)
@@ -191,6 +204,11 @@ def run(ctx, prog):
                     continue
             ok = False
             why.append('return value set at %s is not the helper\'s verdict' % cl.loc_of(d[0]))
+        of_cl = flow.Origin(cl)
+        for k3, c in enumerate(ucalls):
+            barg = [flow.render(of_cl.of_operand(a)) for a in c.args[1:]]
+            reg = any(re.match(r'^(HashMap::get\(RwLock::(read|write)\(arg:self→RateLimiter\.buckets\), arg:tenant_id\)@Some→Some\.0|Entry::or_insert_with\(HashMap::entry\(RwLock::write\(arg:self→RateLimiter\.buckets\), .*\))$', x) for x in barg)
+            ctx.inst('C19.R2', cl.short, 'bucket handed to the admission helper #%d is the one registered in the shared map' % k3, reg, 'arguments: %s' % [x[:110] for x in barg])
         for c in ucalls:
             h = lm.held_at(cl, c.bb, must=False)
             if 'RateLimiter.buckets' in h:
